@@ -211,6 +211,9 @@ export class TypeGen {
         [4, () => A.kw("number")],
         [2, () => A.kw("boolean")],
         [3, () => A.union(r.shuffle(["a", "b", "c", "x-y", "a.b", ""]).slice(0, 2 + r.below(2)).map((s) => A.lit(s)))],
+        // alternatives that are single characters, regex metacharacters among them (a hole like that
+        // invites a character class: `-` between two others, `^` first, `]`, `\\`)
+        [2, () => A.union(r.shuffle([" ", "-", "_", "+", "~", "^", "]", "[", "\\", ".", "*", "a", "z", "0", "9", "!", ",", ""]).slice(0, 2 + r.below(4)).map((s) => A.lit(s)))],
         [1, () => {
           const names = this.namesOf("strLits");
           return names.length ? A.ref(r.pick(names)) : A.kw("string");
